@@ -359,7 +359,22 @@ func init() {
 					return
 				}
 				ref = buf.Bytes()
-				if mode >= 14 && fo.name == "cid-6" {
+				if mode >= 14 && fo.name == "cid-6" && c.Bool("the encoding is the last section") {
+					// ... or in the built-in encoding of a simple font (every section is found through its offset)
+					fo = &c18Font{name: "assembled CFF data ending in a custom encoding", font: fo.font}
+					mk := func(encAt int) []byte {
+						return refcff.Assemble(&refcff.AsmSpec{Name: "Other", CharStrings: [][]byte{{14}, {239, 139, 21, 189, 189, 5, 14}, {14}}, GlyphNames: []string{"A", "B"},
+							TopExtra: refcff.DictEntry(16, encAt), Privates: []refcff.AsmPrivate{{DefaultWidthX: 500}}})
+					}
+					n := len(mk(50))
+					for i := 0; i < 4 && len(mk(n)) != n; i++ {
+						n = len(mk(n)) // (the size of the operand depends on its value)
+					}
+					if len(mk(n)) != n {
+						explore.Fatal("C18: no fixed point for the offset of the encoding (%d bytes)", n)
+					}
+					ref = append(mk(n), 0, 2, 65, 66) // format 0: two codes, 'A' and 'B'
+				} else if mode >= 14 && fo.name == "cid-6" {
 					fo = &c18Font{name: "assembled CFF data ending in four local subroutines", font: fo.font}
 					// (in place of a second font written by the library:) CFF data as other producers lay it
 					// out, ending in a non-empty INDEX (local subroutines no glyph calls)
